@@ -27,7 +27,7 @@ ALL = {
           "order and direct adjacency inside a unit: Props/Order.v (order-respecting moves - in particular every move the generator model produces - keep every precedence arc ordered and direct successors adjacent; needed hypotheses shown by counterexamples); stop groups: Props/Units.v (defect witnesses, rollback) and Props/GroupInv.v (bookkeeping stays consistent under succeeding group-level operations when there are no initial stops); alternates and fixed stops are decided by the oracles on implementation snapshots and solver output only."),
  "C04": E("proof", "Coq theorems (Props/C04.v): in every reachable state the cached cells of every route equal the independent forward pass from_scratch over the route's stop sequence; history independence; the forward-walk equations in terms of the input. " + ENGINE_TIE,
           "Coq proof (refinement: incremental propagation = from-scratch recomputation, induction over histories) + correspondence + oracle from the input"),
- "C05": E("proof", "Coq theorems (Props/C05.v): total = sum of terms, terms = recomputation from routes, unplanned penalty = penalties of exactly the units not on routes, history independence. The terms outside the model (early / late arrival, min stops, stop balance, capacity excess, alternates) are re-evaluated from the routes and the input on solver output only. " + ENGINE_TIE,
+ "C05": E("proof", "Coq theorems (Props/C05.v): total = sum of terms, terms = recomputation from routes, unplanned penalty = penalties of exactly the units not on routes, history independence. Eight terms are modelled (activation, travel duration, vehicles duration, unplanned, early / late arrival, min stops, stop balance); capacity excess and the alternates' share of the unplanned penalty are re-evaluated from the routes and the input on solver output only. " + ENGINE_TIE,
           "Coq proof (invariant scores_ok/colls_ok) + correspondence (exact term values per step) + oracle"),
  "C06": E("proof", "Coq theorems (Props/C06.v) over ALL operator-result oracles and ALL schedules of the parallel-solver LTS: delivered scores strictly decreasing, first = (min) start score, last = best, nothing lost at close; Reset-to-better refuted and excluded by hypothesis. Tie: the REAL solver loop (NewSkeletonSolver: Solve/invoke/Reset) driven by a scripted operator vs the extracted SolverLoop.srun on generated operator scripts (scores sent, best, work); best-tracking projection of the skeletons regenerated from solve_solver.go / solve_solver_parallel.go equals the reviewed reference (Coq obligation each run); score sequences of the real solver under many option sets.",
           "Coq proof on protocol model + differential correspondence of the real loop under scripted operators + regenerated-skeleton obligations + recorded channel traces",
